@@ -94,4 +94,16 @@ PROPS = {
         assumptions=ROUTING_ASSUMPTIONS + ["liveness is the 'two fair rounds' reading: the source re-sends its final watermark and every target acknowledges what it received, twice; real-time tickers are not modelled"],
         timeout={"quick": 1200, "thorough": 7200},
     ),
+    "C15": dict(
+        engine="TestC15",
+        lean_modules=["S2S.Props.C15"],
+        required_theorems=["C15_unlisted_admin_denied", "C15_namespace_lifecycle_denied", "C15_allowed_forwarded", "C15_wiring"],
+        rule="every method of AdminService (45) and WorkflowService (109), enumerated from the service descriptors at run time, called through a real running "
+             "ClusterConnection (generic gRPC invoke / stream open, empty requests) on the inbound and the outbound server, over TCP and over a mux (yamux) "
+             "transport, with/without the translation-bypass header, for allow-lists: no policy, empty (= unrestricted), singletons, non-existent name, random "
+             "subsets; outcome = (PermissionDenied?, did the recording local cluster see the call). Distinct by (transport, server, policy, method).",
+        assumptions=["method classification (two prefix tests + suffix after last '/') is executable model code compared at run time; theorems are over the classified form",
+                     "gRPC delivers PermissionDenied from an interceptor without invoking the handler (observed: the backend records no call)"],
+        timeout={"quick": 900, "thorough": 3600},
+    ),
 }
